@@ -1,6 +1,6 @@
 (** Prop_C16.v -- C16: blurred usage timestamps never reveal exact client
     times.  Only statements, each closed by an earlier lemma. *)
-From MW Require Import Base Store Monad Usage Server Websocket Service UsageFacts BlurInv Inst_Params ProtoFacts.
+From MW Require Import Base Store Monad Usage Server Websocket Service UsageFacts BlurInv Inst_Params ProtoFacts ArrivalFacts.
 
 (** for every positive interval and every time (in ticks of any granularity,
     hence every rational time): a multiple of the interval, not after the true
@@ -74,3 +74,24 @@ Example C16_nonvacuous :
   blur cfg = Some 480 /\ 0 < 480 /\
   blur_round (blur cfg) 1001 = 960 /\ (480 | 960) /\ 960 <= 1001 < 960 + 480.
 Proof. vm_compute. repeat split; try discriminate; try reflexivity. exists 2. reflexivity. Qed.
+
+(** * run level: less than one interval below the TRUE arrival time (quoted by type from ArrivalFacts.v) *)
+
+(** every nameplate / mailbox record written by a crash-free history: started = the first side's arrival time rounded down, a multiple of the interval, within one interval below the clock of that arrival event *)
+Theorem C16_record_within_interval : ltac:(let t := type of record_within_interval in exact t).
+Proof. exact record_within_interval. Qed.
+Check C16_record_within_interval.
+Print Assumptions C16_record_within_interval.
+
+(** (the bridge from the stored column to the arrival event) *)
+Theorem C16_side_added_is_arrival : ltac:(let t := type of side_added_is_arrival in exact t).
+Proof. exact side_added_is_arrival. Qed.
+Check C16_side_added_is_arrival.
+Print Assumptions C16_side_added_is_arrival.
+
+(** non-vacuity *)
+Theorem C16_record_within_interval_nonvacuous : ltac:(let t := type of record_within_interval_nonvacuous in exact t).
+Proof. exact record_within_interval_nonvacuous. Qed.
+Check C16_record_within_interval_nonvacuous.
+Print Assumptions C16_record_within_interval_nonvacuous.
+
